@@ -40,7 +40,7 @@ def thin(rng, sh):
 
 def gen_operand(rng, shape, unit):
     r = rng.random()
-    k = rng.choice([2, -3, 0.5, -0.25, 4, 1, -1, 8])
+    k = rng.choice([2, -3, 0.5, -0.25, 4, 1, -1, 8, 1, 1.0])
     if r < 0.25:
         return {"num": k}
     if r < 0.4:
